@@ -16,11 +16,10 @@ echo "== demo with the change"; PYTHONPATH=$S/src /venv/bin/python -W ignore $OU
 cd /verif
 RES=""
 for Q in $PROPS; do
-  VERIF_REPO_SRC=$S/src VERIF_NO_DET=1 ./check $Q --tier quick > $OUT/check_$Q.txt 2>&1; RC=$?
+  VERIF_EVIDENCE_DIR=$S/ev VERIF_REPO_SRC=$S/src VERIF_NO_DET=1 ./check $Q --tier quick > $OUT/check_$Q.txt 2>&1; RC=$?
   echo "== check $Q against the changed tree: exit $RC"; grep -E "^VIOLATION|signature" $OUT/check_$Q.txt | head -4 | cut -c1-300
   RES="$RES $Q:$RC"
 done
-git checkout -- evidence 2>/dev/null
 rm -rf $S
 echo "{\"id\": \"$ID\", \"demo_exit_with_change\": $D1, \"demo_exit_without_change\": $D0, \"suite_with_change\": \"$(cat $OUT/suite_with_change.txt | tr -d '\n=' | cut -c1-60)\", \"quick_checks_exit\": \"$RES\"}" > $OUT/result.json
 cat $OUT/result.json
